@@ -153,30 +153,39 @@ fn d_v9_three_records() {
 /// C01 witness (fixed by "fix: v9 zero-size template"): a cached template whose fields add
 /// up to zero bytes must not crash the data decoder.  After the repair this passes for
 /// every body; should the division by zero come back it fails again.
-#[kani::proof]
-#[kani::stub(core::fmt::write, no_fmt)]
-#[kani::stub(netflow_parser::variable_versions::data_number::FieldValue::from_field_type, unsigned_kernel_model)]
-fn d_v9_zero_size_template() {
-    const N: usize = 3;
-    let fc: u16 = kani::any();
-    kani::assume(fc <= 1);
-    let mut p = V9Parser::default();
-    let mut fields = Vec::new();
-    if fc == 1 {
-        fields.push(TemplateField { field_type_number: 1, field_type: V9Field::InBytes, field_length: 0 });
-    }
-    p.templates.insert(256, Template { template_id: 256, field_count: fc, fields });
-    let buf: [u8; N] = kani::any();
-    let r = Data::parse(&buf, &mut p, 256);
-    // no crash is the property (C01); no records can be produced from zero-size records
-    if let Ok((rem, d)) = &r {
-        assert!(d.fields.len() == 0);
-    }
-    kani::cover!(fc == 1);
-    kani::cover!(fc == 0);
-    core::mem::forget(r);
-    core::mem::forget(p);
+macro_rules! d_v9_zero_size_template {
+    ($name:ident, $fc:expr) => {
+        #[kani::proof]
+        #[kani::stub(core::fmt::write, no_fmt)]
+        #[kani::stub(netflow_parser::variable_versions::data_number::FieldValue::from_field_type, unsigned_kernel_model)]
+        fn $name() {
+            const N: usize = 3;
+            let mut p = V9Parser::default();
+            let mut fields = Vec::new();
+            let mut k = 0;
+            while k < $fc {
+                fields.push(TemplateField { field_type_number: 1, field_type: V9Field::InBytes, field_length: 0 });
+                k += 1;
+            }
+            p.templates.insert(256, Template { template_id: 256, field_count: $fc, fields });
+            let buf: [u8; N] = kani::any();
+            let r = Data::parse(&buf, &mut p, 256);
+            // no crash is the property (C01); zero-size records cannot produce data
+            match &r {
+                Ok((rem, d)) => {
+                    assert!(d.fields.len() == 0);
+                    assert!(d.padding.len() == N);
+                }
+                Err(_) => {}
+            }
+            core::mem::forget(r);
+            core::mem::forget(p);
+        }
+    };
 }
+d_v9_zero_size_template!(d_v9_zero_size_template_0, 0);
+d_v9_zero_size_template!(d_v9_zero_size_template_1, 1);
+d_v9_zero_size_template!(d_v9_zero_size_template_2, 2);
 
 /// Exact model of the kernel for FieldDataType::Unknown with parse_unknown_fields OFF
 /// (k::k_unknown_off shows the real kernel fails for every length and input).
